@@ -48,6 +48,8 @@ impl<'a> StateMachine<'a> {
     //@| ensures old(self).source == Source::Unknown && final(self).source == Source::DiffUnified ==> counter_armed(&final(self).minus_line_counter),  // @C01,C10:in.a.plain.unified.diff.the.disambiguation.of.three.dash.lines.is.switched.on.whatever.its.first.line.is
     //@|         r.is_ok() ==> (final(self).state is HunkHeader ==> is_prefix("-Subproject commit "@, final(self).line@)),  // @C02,C14:a.hunk.header.is.held.back.only.while.the.next.line.may.be.a.submodule.commit
     //@|         r.is_ok() ==> (final(self).state is SubmoduleShort ==> is_prefix("+Subproject commit "@, final(self).line@)),  // @C01:a.submodule.commit.is.held.back.only.while.the.next.line.is.its.partner
+    //@|         old(self).state is HunkHeader && is_prefix("-Subproject commit "@, final(self).line@) ==> r.is_ok() && final(self).state == old(self).state && final(self).painter == old(self).painter,  // @C14:while.lines.are.still.coming.a.hunk.header.stays.held.back.when.a.submodule.commit.line.follows.the.commit.range.is.shown.in.its.place
+    //@|         old(self).state is SubmoduleShort && is_prefix("+Subproject commit "@, final(self).line@) ==> r.is_ok() && final(self).state == old(self).state && final(self).painter == old(self).painter,  // @C01:while.lines.are.still.coming.a.submodule.commit.stays.held.back.when.its.partner.line.follows.the.pair.is.written.once.as.a.range
 }
 //@ stub src/delta.rs detect_source spec=delta.detect_source
 /// the counter that tells a removed line `-- x` from a `--- file` header is switched on (U30 proves of the real
